@@ -285,6 +285,9 @@ pub struct RunOut {
     pub delivered: Vec<usize>,
     /// index into `delivered` of the first block that arrived before its parent
     pub first_orphan: Option<usize>,
+    /// index into `delivered` of the first delivery in one of the purge-regime finding classes
+    /// (the hypotheses `conn` / `no_late` of proofs/PurgeProofs.v fail), with the finding id
+    pub first_purge_known: Option<(usize, &'static str)>,
 }
 
 pub fn intern_tree(t: &BuiltTree) -> Interned {
@@ -381,7 +384,7 @@ pub async fn deliver(t: &BuiltTree, int: &mut Interned, order: &[usize], allow_o
     let mut np = params(t.spec.gp, t.spec.loading_completed);
     np.prune_after_blocks = t.spec.pab;
     let mut node = Node::new(&np, 1);
-    let mut out = RunOut { obs: vec![], rows: vec![], delivered: vec![], first_orphan: None };
+    let mut out = RunOut { obs: vec![], rows: vec![], delivered: vec![], first_orphan: None, first_purge_known: None };
     saito_core::core::consensus::blockchain::VERIF_WIND_STEPS.with(|c| c.set((0, u64::MAX)));
     for &i in order {
         let block = t.blocks[i].clone();
@@ -398,6 +401,11 @@ pub async fn deliver(t: &BuiltTree, int: &mut Interned, order: &[usize], allow_o
             }
             if out.first_orphan.is_none() {
                 out.first_orphan = Some(out.delivered.len());
+            }
+        }
+        if parent_known && out.first_purge_known.is_none() && !node.blockchain.blocks.is_empty() {
+            if let Some(id) = purge_known_class(&node, t, i) {
+                out.first_purge_known = Some((out.delivered.len(), id));
             }
         }
         out.delivered.push(i);
@@ -452,6 +460,52 @@ pub async fn deliver(t: &BuiltTree, int: &mut Interned, order: &[usize], allow_o
         }
     }
     out
+}
+
+/// The two delivery classes of the purge regime in which the chain theorems do not hold
+/// (hypotheses `conn` and `no_late` of coq/proofs/PurgeProofs.v), decided on the node's state
+/// before the delivery of tree block `i` (whose parent is stored):
+///  * "purge-disconnected-fork": walking back from the parent through stored off-chain blocks
+///    reaches a block whose parent is no longer stored (the fork point was purged);
+///  * "purge-late-failure": the candidate chain contains an invalid block, and before it a
+///    block above both last_block_id and 2 * genesis_period would be wound.
+pub fn purge_known_class(node: &Node, t: &BuiltTree, i: usize) -> Option<&'static str> {
+    let bc = &node.blockchain;
+    let mut path: Vec<SaitoHash> = vec![];
+    let mut h = t.blocks[i].previous_block_hash;
+    loop {
+        match bc.blocks.get(&h) {
+            Some(bk) => {
+                if bk.in_longest_chain {
+                    break;
+                }
+                path.push(h);
+                h = bk.previous_block_hash;
+            }
+            None => return Some("purge-disconnected-fork"),
+        }
+    }
+    // candidate, deepest first
+    let mut cand: Vec<usize> = vec![];
+    for ph in path.iter().rev() {
+        if let Some(j) = t.blocks.iter().position(|b| b.hash == *ph) {
+            cand.push(j);
+        }
+    }
+    cand.push(i);
+    if cand.iter().all(|j| !t.eff_invalid[*j]) {
+        return None;
+    }
+    for j in cand {
+        if t.eff_invalid[j] {
+            break;
+        }
+        let id = t.blocks[j].id;
+        if id > bc.last_block_id && id > 2 * t.spec.gp {
+            return Some("purge-late-failure");
+        }
+    }
+    None
 }
 
 /// polls a future to completion catching panics (the harness runs single-threaded)
@@ -864,6 +918,60 @@ pub fn fork_family(rng: &mut Rng, k: usize) -> TreeSpec {
     TreeSpec { gp, nodes, n_outputs, loading_completed: false, pab }
 }
 
+/// Long chains with late forks, for the purge regime (ids beyond 2 * genesis_period, ring
+/// slots wrap, blocks 2 * gp below the tip are deleted): a main chain of 2gp + 2 .. 2gp + 5
+/// blocks and a side branch forking `d` blocks below the main tip (d = 0 .. gp + 1) with a
+/// chosen length, burn-fee profile, golden tickets and an optional invalid block. `k`
+/// enumerates the family.
+pub fn long_family(rng: &mut Rng, k: usize) -> TreeSpec {
+    let gp = [3u64, 3, 4, 2][k % 4];
+    let m = (2 * gp as usize) + 2 + (k / 4) % 4; // main chain blocks after genesis
+    let d = (k / 3) % (gp as usize + 2); // fork depth below the main tip
+    let s = d + [1usize, 2, 0, 3][(k / 5) % 4]; // side branch length
+    let dts = [2 * HEARTBEAT, 1000 * HEARTBEAT, 10 * HEARTBEAT];
+    let dt_main = dts[(k / 2) % 3];
+    let dt_side = dts[(k / 7) % 3];
+    let inv_pos: Option<usize> = if s == 0 {
+        None
+    } else {
+        match (k / 11) % 5 {
+            1 => Some(0),
+            2 => Some(s / 2),
+            3 => Some(s - 1),
+            _ => None,
+        }
+    };
+    let n_outputs = 6;
+    let mut nodes = vec![NodeSpec { parent: None, gt: false, invalid: false, dt: 0, spend: None, bad_spend: false, bf_boost: 0 }];
+    for i in 0..m {
+        nodes.push(NodeSpec {
+            parent: Some(i),
+            gt: true,
+            invalid: false,
+            dt: dt_main + rng.below(3),
+            spend: if i < n_outputs && (k / 13) % 2 == 0 { Some(i) } else { None },
+            bad_spend: false,
+            bf_boost: 0,
+        });
+    }
+    let fork = m - d; // index of the fork point (main tip is index m)
+    let mut parent = fork;
+    for i in 0..s {
+        let is_inv = inv_pos == Some(i);
+        nodes.push(NodeSpec {
+            parent: Some(parent),
+            gt: (k / 17) % 3 != 2 || i % 2 == 0,
+            invalid: is_inv,
+            dt: dt_side + rng.below(3),
+            spend: None,
+            bad_spend: false,
+            bf_boost: if (k / 19) % 2 == 1 { 1_000_000_000_000 } else { 0 },
+        });
+        parent = nodes.len() - 1;
+    }
+    TreeSpec { gp, nodes, n_outputs, loading_completed: false, pab: 1_000_000 }
+}
+
 /// a delivery order: parents-before-children mostly, sometimes shuffled, with duplicates
 pub fn random_order(rng: &mut Rng, n: usize, in_order_pct: u64, allow_orphans: bool, parents: &[Option<usize>]) -> Vec<usize> {
     let mut order: Vec<usize> = (0..n).collect();
@@ -961,9 +1069,13 @@ pub async fn run_property(profile: &Profile, args: &Args) {
     let mut distinct: BTreeSet<String> = BTreeSet::new();
     let mut case_no = 0usize;
     let mut model_cases = 0usize;
+    let mut model_beyond = 0usize;
     let n_family = if thorough { 1500 } else { 330 };
-    for ti in 0..(n_trees + n_family) {
-        let spec = if ti < n_family {
+    let n_long = if thorough { 400 } else { 80 };
+    for ti in 0..(n_trees + n_family + n_long) {
+        let spec = if ti >= n_trees + n_family {
+            long_family(&mut rng, ti - n_trees - n_family)
+        } else if ti < n_family {
             fork_family(&mut rng, ti)
         } else {
             let gp = *rng.pick(&[3u64, 5, 8, 20]);
@@ -1037,20 +1149,22 @@ pub async fn run_property(profile: &Profile, args: &Args) {
                 for w in fails {
                     let what = format!("delivery {} (block {}): {}", k + 1, order[k] + 1, w);
                     let tainted = out.first_orphan.map(|fo| k >= fo).unwrap_or(false);
-                    match classify(profile.prop, &w, tainted) {
+                    let purge_id = out.first_purge_known.and_then(|(fo, id)| if k >= fo { Some(id) } else { None });
+                    match classify(profile.prop, &w, tainted).or(purge_id) {
                         Some(id) => summary.known_hit(id, case_no, &what),
                         None => summary.oracle_failure(case_no, &what, &desc),
                     }
                 }
                 prev = o.clone();
             }
-            summary.count("generator", if family { "fork-family" } else { "random" });
+            summary.count("generator", if ti >= n_trees + n_family { "long-chain" } else if family { "fork-family" } else { "random" });
             summary.count("blocks", &format!("{}", t.blocks.len()));
             summary.count("gp", &format!("{}", t.spec.gp));
             summary.count("reorgs", &format!("{}", reorgs.min(4)));
             summary.count("rejected", &format!("{}", rejected.min(4)));
             summary.count("in_order", &format!("{}", order.iter().enumerate().all(|(i, x)| i == *x)));
             summary.count("orphan_history", &format!("{}", out.first_orphan.is_some()));
+            summary.count("purge_known_class", out.first_purge_known.map(|(_, id)| id).unwrap_or("none"));
             let nontrivial = match profile.prop {
                 "C04" => rejected > 0,
                 _ => reorgs > 0 || t.blocks.iter().any(|b| b.transactions.len() > 1),
@@ -1065,10 +1179,34 @@ pub async fn run_property(profile: &Profile, args: &Args) {
             if nontrivial && distinct.insert(input.clone()) {
                 summary.nontrivial += 1;
             }
-            // the Coq chain model covers the regime without purging (ids <= 2 * gp)
-            if (out.first_orphan.is_none() || std::env::var("VERIF_MODEL_ORPHANS").is_ok()) && order.iter().all(|i| t.blocks[*i].id <= 2 * t.spec.gp) {
-                coq_cases.push(format!("({}, {})", input, gal::nlllist(&out.rows)));
+            // the Coq chain model (model/ChainPurge.v) covers all block ids; histories in which a
+            // block arrives before its parent stay outside (listed finding orphan-branch).
+            // Row 1 of every observation gets genesis_block_id appended for the comparison.
+            if out.first_orphan.is_none() || std::env::var("VERIF_MODEL_ORPHANS").is_ok() {
+                let rows_p: Vec<Vec<Vec<u64>>> = out
+                    .rows
+                    .iter()
+                    .zip(out.obs.iter())
+                    .map(|(r, o)| {
+                        let mut r = r.clone();
+                        if let Some(sn) = &o.snap {
+                            if r.len() > 1 {
+                                r[1].push(sn.genesis_block_id);
+                            }
+                        }
+                        r
+                    })
+                    .collect();
+                coq_cases.push(format!("({}, {})", input, gal::nlllist(&rows_p)));
                 model_cases += 1;
+                let beyond = order.iter().any(|i| t.blocks[*i].id > 2 * t.spec.gp);
+                summary.count("model_beyond_2gp", &format!("{}", beyond));
+                if beyond {
+                    model_beyond += 1;
+                    summary.count("beyond_2gp_reorgs", &format!("{}", reorgs.min(4)));
+                    summary.count("beyond_2gp_rejected", &format!("{}", rejected.min(4)));
+                    summary.count("beyond_2gp_blocks", &format!("{}", t.blocks.len()));
+                }
             }
             if summary.samples.len() < 3 && ti % 7 == 0 && oi == 1 {
                 summary.samples.push(desc.clone());
@@ -1089,12 +1227,12 @@ pub async fn run_property(profile: &Profile, args: &Args) {
     });
     summary.evaluations = case_no as u64;
     summary.notes.push(format!(
-        "{} of {} histories lie in the regime covered by the Coq chain model (all ids <= 2*genesis_period, no block delivered before its parent) and were compared with it; the direct oracle ran on all",
-        model_cases, case_no
+        "{} of {} histories (no block delivered before its parent) were compared with the Coq chain model ChainPurge.run_trace_p, {} of them with block ids beyond 2*genesis_period (purge regime); those with all ids <= 2*genesis_period are also compared with Chain.run_trace; the direct oracle ran on all",
+        model_cases, case_no, model_beyond
     ));
-    let header = "From Saito Require Import Base Chain.\n\
+    let header = "From Saito Require Import Base Chain ChainPurge.\n\
         Definition check (c : ((N * bool) * list blk * list N) * list (list (list N))) : bool :=\n\
-        let '((cfg, blocks, order), expected) := c in eqb_lllN (run_trace cfg blocks order) expected.";
+        let '((cfg, blocks, order), expected) := c in check_trace cfg blocks order expected.";
     let files = gal::write_shards(
         &format!("{}/cases", args.out),
         profile.prop,
